@@ -1,5 +1,6 @@
 import Sgz.Proofs.Writer
 import Sgz.Proofs.Reader
+import Sgz.Proofs.SegyRaw
 /-!
 # C01 — write-then-read fidelity
 
@@ -82,5 +83,32 @@ theorem write_then_read (g : Geo) (hg : g.Valid) :
 example : (⟨5, 6, 9, 4, 4, 256, 64⟩ : Geo).Valid ∧ (⟨9, 9, 9, 8, 8, 64, 64⟩ : Geo).Valid := by decide
 example : (Writer.cells ⟨5, 6, 9, 4, 4, 256, 64⟩).length = 2 * 2 * 64 := by decide +kernel
 example : Writer.fillAt ⟨5, 6, 9, 4, 4, 256, 64⟩ 7 7 200 = (4, 5, 8) := by decide
+
+/-! ### the `reduce_iops` route reads the source the same way (Model/SegyRaw)
+
+`MinimalInlineReader.read_line` takes one range read per inline and slices the buffer; the theorems place every sample and
+header it hands on at the bytes of that sample / header in the SEG-Y file, show that every plane of every plane set is
+filled from an existing inline, and that every inline fills its own plane — so the cube the writer sees on this route is the
+cube segyio would deliver (fixed-length traces, no extended text headers: otherwise the reader's self-test rejects it and
+the converter falls back to segyio). -/
+
+theorem reduce_iops_sample_bytes (nxl ns i h s : Nat) :
+    (SegyRaw.readLine nxl ns i).1 + SegyRaw.sampleInBuf ns h s = SegyRaw.traceOffset ns (i * nxl + h) + 240 + 4 * s :=
+  SegyRaw.sample_position nxl ns i h s
+
+theorem reduce_iops_header_bytes (nxl ns i h : Nat) :
+    (SegyRaw.readLine nxl ns i).1 + SegyRaw.headerInBuf ns h = SegyRaw.traceOffset ns (i * nxl + h) :=
+  SegyRaw.header_position nxl ns i h
+
+theorem reduce_iops_planes_exist (nil b0 p i : Nat) (hb : 0 < b0) (hn : 0 < nil) (hp : p < pad nil b0 / b0) (hi : i < b0) :
+    SegyRaw.lineOfPlane nil b0 p i < nil := SegyRaw.lineOfPlane_lt nil b0 p i hb hn hp hi
+
+theorem reduce_iops_every_inline_placed (nil b0 j : Nat) (hb : 0 < b0) (hj : j < nil) :
+    SegyRaw.lineOfPlane nil b0 (j / b0) (j % b0) = j ∧ j / b0 < pad nil b0 / b0 ∧ j % b0 < b0 :=
+  SegyRaw.lineOfPlane_covers nil b0 j hb hj
+
+example : SegyRaw.conversionReads 5 3 10 4 =
+    [(0, 3600), (3600, 840), (3600, 840), (4440, 840), (5280, 840), (6120, 840), (6960, 840), (6960, 840), (6960, 840),
+     (6960, 840)] := by decide
 
 end Sgz.Props.C01
